@@ -30,4 +30,12 @@ PROPS = {
              "cheapest, and prints the prescribed outcome; the driver replays all cells at RegisterFunction/FindFunction and compiles and runs the sets of up to "
              "two overloads (distinct constant per overload) at both optimisation levels. Exhaustive within the stated universe.",
         note=_TRUST + "Convertible = same shape class and size; one-component vectors are outside the universe."),
+    "C11": dict(
+        claimed=True, level="model_checking",
+        technique="TLC enumerates all statement trees to a depth, decides acceptance with the TLA+ rule NslStatic!FlowOk and runs the TLA+ language semantics NslSem on each; every tree is replayed through the real compiler (accept/reject) and VM (value) - spec->code conformance",
+        text="Every statement tree of bounded depth over blocks, if/else, the three loop forms and break/continue/plain leaves is built inside TLC; the acceptance "
+             "rule is a TLA+ operator (two formulations checked against each other), and the abstract machine NslSem decides which loop every accepted jump "
+             "leaves or re-tests (invariants: accepted programs never get stuck on a jump; frame isolation). The driver compiles all programs at both "
+             "optimisation levels and runs the accepted ones on the VM. Exhaustive to the stated depth.",
+        note=_TRUST + "Rejection = Compile returns None or raises. Loops run two iterations by construction."),
 }
